@@ -661,10 +661,12 @@ def r11_sequential_parts_both_reported(ctx):
                 continue
             stages = []
             for st in function_stmts(f):
-                if isinstance(st, (ast.Assign, ast.Return, ast.Expr)) and isinstance(getattr(st, "value", None), ast.Call):
-                    c = st.value
-                    if callee_last(c) in ("validate", "_validate") and isinstance(c.func, ast.Attribute) and "lazy" in {k.arg for k in c.keywords}:
-                        stages.append((st, c))
+                if isinstance(st, (ast.Assign, ast.Return, ast.Expr)) and getattr(st, "value", None) is not None:
+                    for c in ast.walk(st.value):   # the call may be wrapped (`return cast(T, self.index.validate(...))`)
+                        if isinstance(c, ast.Call) and callee_last(c) in ("validate", "_validate") and isinstance(c.func, ast.Attribute) \
+                                and "lazy" in {k.arg for k in c.keywords}:
+                            stages.append((st, c))
+                            break
             recvs = {txt(c.func.value) for _, c in stages}
             if len(stages) < 2 or len(recvs) < 2:
                 continue
@@ -675,6 +677,30 @@ def r11_sequential_parts_both_reported(ctx):
                    "first part fenced, errors merged" if fenced else
                    f"`{txt(first.func)}(...)` (line {first.lineno}) is not fenced: in lazy mode its SchemaErrors leaves {f.name} before `{txt(stages[1][1].func)}` "
                    f"(line {stages[1][1].lineno}) runs, so every error of the second part is missing from the report", f.loc(first))
+            # the errors caught from the first part must not be forgotten: every normal exit is reached only when nothing was caught
+            if fenced:
+                caught = set()
+                for t in enclosing_tries(first, f.node):
+                    for h in t.handlers:
+                        if h.name and ("SchemaErrors" in handler_names(h) or h.type is None):
+                            for a in ast.walk(h):
+                                if isinstance(a, ast.Assign) and isinstance(a.value, ast.Name) and a.value.id == h.name:
+                                    caught |= {tt.id for tt in a.targets if isinstance(tt, ast.Name)}
+                if caught:
+                    cfg = cfg_of(f.node)
+                    v = sorted(caught)[0]
+                    for r in function_stmts(f):
+                        if not isinstance(r, ast.Return) or r.lineno <= first.lineno:
+                            continue
+                        node = cfg.node_of(r)
+                        if node is None:
+                            continue
+                        pc = path_condition(cfg, node.id, keep=lambda t, nn: t.replace(" ", "") == f"{v}isNone")
+                        ok = pc == ((f"{v} is None",), frozenset({(True,)}))
+                        ctx.ob("R11", f, f"{f.short}: `{txt(r)[:50]}` is reached only when the first part raised nothing", ok,
+                               f"guarded by `{v} is None`" if ok else
+                               f"`{txt(r)[:60]}` returns although `{v}` may hold the SchemaErrors caught from `{txt(first.func)}`: with a conforming second part the lazy "
+                               "validation returns the invalid object as if it were valid, where eager validation raises", f.loc(r))
     ctx.stats["sequential_validations"] = n
     if n < 1:
         raise AnalysisError("no API-level validate with two sequential parts found (expected SeriesSchema.validate)")
